@@ -19,13 +19,14 @@ def defaultPass (w : String) : String := Hex.encode (bytesOfString ("Pass" ++ w 
 
 def keyItem (k : Secrets.Key) : String :=
   let w := k.1
-  match k.2 with
-  | .aid => "aid/" ++ w
-  | .kver => w ++ "/kver" | .remark => w ++ "/remark" | .mpriv => w ++ "/mpriv" | .mpub => w ++ "/mpub"
-  | .cpriv => w ++ "/cpriv" | .cpub => w ++ "/cpub" | .cent => w ++ "/cent" | .ent => w ++ "/ent"
-  | .coinType => w ++ "/coinType" | .account => w ++ "/account" | .acct n => w ++ s!"/acct{n}"
-  | .exb => w ++ "/exbPubKey" | .inb => w ++ "/inbPubKey" | .exNum => w ++ "/exChildNum" | .inNum => w ++ "/inChildNum"
-  | .pubk b i => w ++ s!"/pub/{b}.{i}"
+  match k.2.dbName with
+  | some n => w ++ "/" ++ n
+  | none =>
+    match k.2 with
+    | .aid => "aid/" ++ w
+    | .acct n => w ++ s!"/acct{n}"
+    | .pubk b i => w ++ s!"/pub/{b}.{i}"
+    | _ => w ++ "/?"
 
 def amItem (w : String) (a : Secrets.AM) : String :=
   s!"{w}:{if a.unlocked then "U" else "L"}:{if a.mkey.isSome then "v" else "-"}:{if a.hashed.isSome then 1 else 0}:0:0:{if a.branch then 2 else 0}:{a.privs.length}"
